@@ -298,12 +298,27 @@ impl Monitor for C14 {
                     if s.total_fee_rate > 100_000 || s.total_fee_rate < static_rate as u32 {
                         out.push(viol("rate_out_of_bounds", ev.idx, format!("step {} rate {} outside [{}, 100000]", i, s.total_fee_rate, static_rate)));
                     }
+                    if s.total_fee_rate > 65_535 {
+                        cov.probe("step_charged_above_the_16_bit_rate_range");
+                    }
+                    if s.total_fee_rate == 100_000 {
+                        cov.probe("step_charged_the_ten_percent_cap");
+                    }
                     if k.adaptive_fee_control_factor == 0 && s.total_fee_rate != static_rate as u32 {
                         out.push(viol("zero_control_factor_not_static", ev.idx, format!("control factor 0 but step {} charged {} instead of the static {}", i, s.total_fee_rate, static_rate)));
                     }
                     // a zero-length step or a step without liquidity charges nothing by rate
                     if s.sqrt_price_next == s.sqrt_price_start || s.liquidity == 0 || s.amount_in == 0 {
                         continue;
+                    }
+                    // "charged the static rate plus the adaptive rate": the fee taken on a step that ran to its target (and on every
+                    // exact-out step) is the rate's share of the input, ceil(in * rate / (1e6 - rate)) - not that of another rate
+                    if s.sqrt_price_next == s.sqrt_price_target || !o.is_input {
+                        let expect = model::fee_for_amount_in(s.amount_in, s.total_fee_rate);
+                        if num_bigint::BigUint::from(s.fee_amount) != expect {
+                            out.push(viol("step_fee_not_by_rate", ev.idx, format!("step {} took a fee of {} on an input of {} although its rate {} (static {} + adaptive) calls for {}", i, s.fee_amount, s.amount_in, s.total_fee_rate, static_rate, expect)));
+                            break;
+                        }
                     }
                     // tick groups the step's price interval lies in
                     let (lo_p, hi_p) = if o.a_to_b { (s.sqrt_price_next, s.sqrt_price_start) } else { (s.sqrt_price_start, s.sqrt_price_next) };
